@@ -71,6 +71,8 @@ type Extra struct {
 	K    string `json:"k"`
 	Cmd  string   `json:"cmd"` // C06 (program mode, what=split): At counts the requests of this command type only (Commit, Prewrite, PessimisticLock, PessimisticRollback, BatchRollback, ResolveLock)
 	Ks   []string `json:"ks"`  // C06 (what=split): several split keys at once
+	Until string  `json:"until"`  // C06 (what=hold): hold the first request of Cmd naming key K until a request of command Until naming K was answered
+	MaxMs int     `json:"max_ms"` // C06 (what=hold): give up holding after this many ms (default 300)
 }
 type Scenario struct {
 	ID        string   `json:"id"`
@@ -105,6 +107,7 @@ type Step struct {
 	LOIE  bool     `json:"loie"`  // lock: only if exists
 	Wait  int64    `json:"wait"`  // lock wait: -1 no wait, 0 default(always), >0 ms
 	Async bool     `json:"async"`
+	CancelAfter bool `json:"cancel_after"` // C06: agg_done / agg_cancel / commit run under a cancellable context that the caller cancels as soon as the call returned
 }
 type OtherTxn struct {
 	Txn TxnSpec `json:"txn"`
@@ -497,6 +500,14 @@ func waitWG(wg *sync.WaitGroup, d time.Duration) bool {
 	}
 }
 
+// callCtx: the context of one API call; with cancelAfter the caller cancels it as soon as the call returned (defer cancel())
+func callCtx(ctx context.Context, cancelAfter bool) (context.Context, context.CancelFunc) {
+	if cancelAfter {
+		return context.WithCancel(ctx)
+	}
+	return ctx, func() {}
+}
+
 type progTxn struct {
 	txn    *transaction.KVTxn
 	cid    string
@@ -548,6 +559,15 @@ func runProgram(sc *Scenario, e *env, out map[string]interface{}) {
 				if x.What == "reader" || x.What == "push_min_commit" {
 					g.plan.hooks[x.At] = func() { e.helper(x.What, x.K, 0) }
 				}
+				if x.What == "hold" {
+					mx := x.MaxMs
+					if mx <= 0 {
+						mx = 300
+					}
+					g.holdMu.Lock()
+					g.holds = append(g.holds, &holdRule{cmd: x.Cmd, key: hk(key(x.K)), until: x.Until, maxMs: mx})
+					g.holdMu.Unlock()
+				}
 				if x.What == "split" {
 					// C06: the region layout changes right before the request is delivered (the request was built for the old layout)
 					h := func() {
@@ -594,7 +614,7 @@ func runProgram(sc *Scenario, e *env, out map[string]interface{}) {
 		pt := txns[st.T]
 		cid := clientOf(st.T)
 		store := e.store(cid)
-		if st.Op != "begin" && st.Op != "split" && st.Op != "clock" && st.Op != "sleep" && (pt == nil || pt.done) {
+		if st.Op != "begin" && st.Op != "split" && st.Op != "clock" && st.Op != "sleep" && st.Op != "failpoint" && st.Op != "audit" && (pt == nil || pt.done) {
 			res["skipped"] = true
 			record(i, st, res)
 			return
@@ -781,7 +801,9 @@ func runProgram(sc *Scenario, e *env, out map[string]interface{}) {
 						res["panic"] = fmt.Sprint(p)
 					}
 				}()
-				pt.txn.CancelAggressiveLocking(ctx)
+				cctx, ccancel := callCtx(ctx, st.CancelAfter)
+				defer ccancel()
+				pt.txn.CancelAggressiveLocking(cctx)
 			}()
 		case "agg_done":
 			func() {
@@ -790,11 +812,17 @@ func runProgram(sc *Scenario, e *env, out map[string]interface{}) {
 						res["panic"] = fmt.Sprint(p)
 					}
 				}()
-				pt.txn.DoneAggressiveLocking(ctx)
+				cctx, ccancel := callCtx(ctx, st.CancelAfter)
+				defer ccancel()
+				pt.txn.DoneAggressiveLocking(cctx)
 			}()
 		case "commit":
 			e.trace.add(Event{Kind: "commit_call", Client: cid, F: map[string]interface{}{"start": pt.txn.StartTS(), "finish": "commit", "causal": pt.spec.Causal}})
-			err = pt.txn.Commit(ctx)
+			func() {
+				cctx, ccancel := callCtx(ctx, st.CancelAfter)
+				defer ccancel()
+				err = pt.txn.Commit(cctx)
+			}()
 			pt.done = true
 			pt.result = classify(err)
 			res["commit_ts"] = pt.txn.CommitTS()
@@ -804,6 +832,29 @@ func runProgram(sc *Scenario, e *env, out map[string]interface{}) {
 			pt.done = true
 			pt.result = "rolledback"
 			e.trace.add(Event{Kind: "told", Client: cid, F: map[string]interface{}{"start": pt.txn.StartTS(), "res": "ok", "finish": "rollback"}})
+		case "failpoint":
+			// C06: schedule control through a product failpoint (K = name, V = expression, empty V disables)
+			if st.V == "" {
+				_ = failpoint.Disable(st.K)
+			} else if e2 := failpoint.Enable(st.K, st.V); e2 != nil {
+				res["err"] = "err:other:" + e2.Error()
+			}
+		case "audit":
+			// C06: which transaction holds the lock of each key right now (after this client's background work went quiet)
+			if g := e.gates[cid]; g != nil {
+				g.waitQuiet(40*time.Millisecond, 3*time.Second)
+			}
+			ca := e.store("c8")
+			locks := map[string]interface{}{}
+			for _, kk := range sc.Keys {
+				m := e.mvcc(ca, key(kk))
+				if lk, ok := m["lock"].(map[string]interface{}); ok {
+					locks[kk] = lk["start"]
+				} else {
+					locks[kk] = nil
+				}
+			}
+			res["locks"] = locks
 		case "split":
 			e.split(key(st.K))
 		case "sleep":
@@ -833,7 +884,12 @@ func runProgram(sc *Scenario, e *env, out map[string]interface{}) {
 				}
 				sort.Strings(cur)
 				sort.Strings(prev)
-				res["bk"] = map[string]interface{}{"locked": locked, "locked_cnt": pr.GetLockedCount(), "agg_cur": cur, "agg_prev": prev, "agg": pt2.txn.IsInAggressiveLockingMode()}
+				bk := map[string]interface{}{"locked": locked, "locked_cnt": pr.GetLockedCount(), "agg_cur": cur, "agg_prev": prev, "agg": pt2.txn.IsInAggressiveLockingMode()}
+				if cm := pr.GetCommitter(); !cm.IsNil() {
+					bk["primary"] = string(cm.GetPrimaryKey())
+					bk["ttl_running"] = cm.IsTTLRunning()
+				}
+				res["bk"] = bk
 			}()
 		}
 		record(i, st, res)
@@ -1032,11 +1088,16 @@ func runScenario(sc *Scenario) map[string]interface{} {
 		finish = "rollback"
 	}
 	e.trace.add(Event{Kind: "commit_call", Client: "c1", F: map[string]interface{}{"start": S, "finish": finish, "causal": sc.Txn.Causal}})
+	// Commit runs under its own cancellable context: the fault "cancelresp" lets the store apply request i and then
+	// cancels this context, so the in-flight request ends as cancelled by the caller (its answer never seen)
+	commitCtx, cancelCommit := context.WithCancel(ctx)
+	defer cancelCommit()
+	g.cancelCaller = cancelCommit
 	go func() {
 		if finish == "rollback" {
 			commitErr = txn.Rollback()
 		} else {
-			commitErr = txn.Commit(ctx)
+			commitErr = txn.Commit(commitCtx)
 		}
 		close(done)
 	}()
